@@ -31,8 +31,8 @@ class Findings:
         self.pid = pid
         self.classes = []      # (name, what, set(keys))
         self.fixed = []
-        if not os.path.exists(FINDINGS):
-            return
+        if not os.path.exists(FINDINGS) or os.environ.get("VERIF_IGNORE_KNOWN"):
+            return          # maintainer mode: regenerate the lists from scratch (tools only; never set by a registered command)
         for line in open(FINDINGS):
             line = line.rstrip("\n")
             if not line or line.startswith("#"):
